@@ -411,6 +411,7 @@ package actions
 //@             cb.deliveries.attempt_at$set(dc) && cb.deliveries.attempt_at(dc) == now + s.DeliveryDelay &&
 //@             !cb.deliveries.completed_at$set(dc) && !cb.deliveries.attempts$set(dc) && !cb.deliveries.id$set(dc) && !cb.deliveries.last_attempted_at$set(dc)
 //@   ensures fresh_builder: dc != nil ==> !allocated(dc)
+//@   ensures builders_kept: forall b *ent.DeliveryCreate :: allocated(b) ==> cb_unchanged(deliveries, b)
 //@   ensures unordered_unlinked: [C05] dc != nil && !(s.OrderedDelivery && m.OrderKey != nil && deref(m.OrderKey) != "") ==> !cb.deliveries.not_before_id$set(dc)
 //@   ensures pred_same_key: [C05] dc != nil && s.OrderedDelivery && m.OrderKey != nil && deref(m.OrderKey) != "" ==>
 //@             (cb.deliveries.not_before_id$set(dc) ==> (forall p Id :: p == cb.deliveries.not_before_id(dc) ==>
